@@ -242,4 +242,288 @@ theorem zeroed_spec (m z : FM) (h : zeroed m = .ok z) :
     | cons s r ih => simp only [List.flatMap_cons, List.map_append, ih]
 
 example : zeroed ⟨[.span 4 7 false, .lost 2, .span 1 3 true], 9⟩ = .ok ⟨[.span 3 6 false, .lost 2, .span 0 2 true], 6⟩ := by decide
+
+/-! ### the loops of `FeatureMap.gaps`, `nongap` and `inverse` (two loops and `list.sort()`) -/
+
+theorem gen_locs_loop_gaps (spans : List FSp) (locs : List (Int × Int)) (off : Int) :
+    C08Gen.fmGaps_loop1 locs off spans = .ok (locs ++ locsOf true off spans, (spans.map FSp.length).foldl (· + ·) off) := by
+  induction spans generalizing locs off with
+  | nil => simp [C08Gen.fmGaps_loop1, locsOf]
+  | cons s r ih =>
+    simp only [C08Gen.fmGaps_loop1, locsOf, List.map, List.foldl]
+    split <;> rename_i h <;> simp [ih, h]
+
+theorem gen_locs_loop_nongap (spans : List FSp) (locs : List (Int × Int)) (off : Int) :
+    C08Gen.fmNongap_loop1 locs off spans = .ok (locs ++ locsOf false off spans, (spans.map FSp.length).foldl (· + ·) off) := by
+  induction spans generalizing locs off with
+  | nil => simp [C08Gen.fmNongap_loop1, locsOf]
+  | cons s r ih =>
+    simp only [C08Gen.fmNongap_loop1, locsOf, List.map, List.foldl]
+    split <;> rename_i h <;> simp at h <;> simp [ih, h]
+
+/-- `FeatureMap.gaps` as translated from the source = the hand model -/
+theorem gen_fmGaps (spans : List FSp) (pl : Int) : C08Gen.fmGaps spans pl = gaps ⟨spans, pl⟩ := by
+  simp [C08Gen.fmGaps, gen_locs_loop_gaps, gen_fmPost, gaps]
+
+/-- `FeatureMap.nongap` as translated from the source = the hand model -/
+theorem gen_fmNongap (spans : List FSp) (pl : Int) : C08Gen.fmNongap spans pl = nongap ⟨spans, pl⟩ := by
+  simp [C08Gen.fmNongap, gen_locs_loop_nongap, gen_fmPost, nongap]
+
+theorem gen_inverse_loop1 (spans : List FSp) (temp : List Q) (cum : Int) :
+    C08Gen.fmInverse_loop1 temp cum spans = .ok (temp ++ invTemp cum spans, (spans.map FSp.length).foldl (· + ·) cum) := by
+  induction spans generalizing temp cum with
+  | nil => simp [C08Gen.fmInverse_loop1, invTemp]
+  | cons s r ih =>
+    cases s with
+    | lost n => simp [C08Gen.fmInverse_loop1, invTemp, FSp.isLost, FSp.length, ih]
+    | span a b rv =>
+      cases rv <;> simp [C08Gen.fmInverse_loop1, invTemp, FSp.isLost, FSp.length, C08Gen.fspReverse, C08Gen.fspStart, C08Gen.fspEnd, ih]
+
+theorem gen_inverse_loop2 (temp : List Q) (ns : List FSp) (last : Int) :
+    C08Gen.fmInverse_loop2 ns last temp =
+      match invLoop last temp with
+      | .error e => .error e
+      | .ok (rest, ls) => .ok (ns ++ rest, ls) := by
+  induction temp generalizing ns last with
+  | nil => simp [C08Gen.fmInverse_loop2, invLoop]
+  | cons q r ih =>
+    obtain ⟨s, e, cs, ce⟩ := q
+    simp only [C08Gen.fmInverse_loop2, invLoop, gen_spanInit, gen_lostInit, ih]
+    by_cases h1 : s > last
+    · have h2 : ¬ s < last := by omega
+      simp only [h1, h2, if_true, if_false]
+      cases invLoop e r with
+      | error er => rfl
+      | ok p => obtain ⟨rest, ls⟩ := p; simp
+    · by_cases h2 : s < last
+      · simp [h1, h2]
+      · simp only [h1, h2, if_false]
+        cases invLoop e r with
+        | error er => rfl
+        | ok p => obtain ⟨rest, ls⟩ := p; simp
+
+/-- `FeatureMap.inverse` as translated from the source (two loops and a sort) = the hand model -/
+theorem gen_fmInverse (spans : List FSp) (pl : Int) : C08Gen.fmInverse spans pl = inverse ⟨spans, pl⟩ := by
+  simp only [C08Gen.fmInverse, gen_inverse_loop1, gen_inverse_loop2, gen_fmPost, gen_lostInit, inverse, C08Gen.sortQ,
+    if_false, List.nil_append]
+  cases invLoop 0 (List.foldr insertQ [] (invTemp 0 spans)) with
+  | error er => rfl
+  | ok p =>
+    obtain ⟨rest, ls⟩ := p
+    simp only []
+    split <;> simp
+
+example : C08Gen.fmInverse [.span 4 7 false, .lost 2, .span 1 3 true] 9 =
+    .ok ⟨[.lost 1, .span 5 7 true, .lost 1, .span 0 3 false, .lost 2], 7⟩ := by decide
+example : C08Gen.fmGaps [.span 4 7 false, .lost 2, .span 1 3 true] 9 = .ok ⟨[.span 3 5 false], 7⟩ := by decide
+
+/-! ### set-theoretic meaning of `coords_intersect` (the core of `shared_gaps`), for the translated code -/
+
+/-- column `x` lies in one of the half-open segments of a coordinate list -/
+def Cov (c : List (Int × Int)) (x : Int) : Prop := ∃ p ∈ c, p.1 ≤ x ∧ x < p.2
+
+theorem cov_nil (x : Int) : ¬ Cov [] x := by simp [Cov]
+theorem cov_cons (p : Int × Int) (c : List (Int × Int)) (x : Int) : Cov (p :: c) x ↔ (p.1 ≤ x ∧ x < p.2) ∨ Cov c x := by
+  simp [Cov]
+theorem cov_append (a b : List (Int × Int)) (x : Int) : Cov (a ++ b) x ↔ Cov a x ∨ Cov b x := by
+  simp only [Cov, List.mem_append]
+  constructor
+  · rintro ⟨p, hp | hp, h⟩
+    · exact Or.inl ⟨p, hp, h⟩
+    · exact Or.inr ⟨p, hp, h⟩
+  · rintro (⟨p, hp, h⟩ | ⟨p, hp, h⟩)
+    · exact ⟨p, Or.inl hp, h⟩
+    · exact ⟨p, Or.inr hp, h⟩
+
+/-- `span_and_span` of two proper segments is their set intersection `[max starts, min ends)` (or nothing) -/
+theorem spanAndSpan_spec (a1 a2 b1 b2 : Int) (ha : a1 < a2) (hb : b1 < b2) :
+    IndelMap.spanAndSpan a1 a2 b1 b2 =
+      if max a1 b1 < min a2 b2 then some (some (max a1 b1, min a2 b2)) else some none := by
+  simp only [IndelMap.spanAndSpan]
+  repeat' split
+  all_goals first | omega | (simp only [Option.some.injEq, Prod.mk.injEq]; omega) | simp_all <;> omega
+
+theorem intersectInner_spec (a1 a2 : Int) (ha : a1 < a2) (c2 : List (Int × Int)) (h2 : ∀ p ∈ c2, p.1 < p.2)
+    (hs : c2.Pairwise (fun p q => p.1 ≤ q.1)) :
+    ∃ r, IndelMap.intersectInner a1 a2 c2 = .ok r ∧ ∀ x, Cov r x ↔ (a1 ≤ x ∧ x < a2 ∧ Cov c2 x) := by
+  induction c2 with
+  | nil => exact ⟨[], rfl, fun x => by simp [cov_nil]⟩
+  | cons b rest ih =>
+    obtain ⟨b1, b2⟩ := b
+    have hb : b1 < b2 := h2 (b1, b2) (by simp)
+    have hs' := List.pairwise_cons.mp hs
+    obtain ⟨r', hr', hc'⟩ := ih (fun p hp => h2 p (by simp [hp])) hs'.2
+    simp only [IndelMap.intersectInner, spanAndSpan_spec a1 a2 b1 b2 ha hb]
+    by_cases hc : a1 ≤ b2 ∧ b1 ≤ a2
+    · simp only [hc, and_self, if_true]
+      by_cases hm : max a1 b1 < min a2 b2
+      · simp only [hm, if_true, hr']
+        refine ⟨_, rfl, fun x => ?_⟩
+        rw [cov_cons, cov_cons, hc' x]
+        constructor
+        · rintro (h | h)
+          · simp only at h; exact ⟨by omega, by omega, Or.inl ⟨by omega, by omega⟩⟩
+          · exact ⟨h.1, h.2.1, Or.inr h.2.2⟩
+        · rintro ⟨h1, h2', h | h⟩
+          · left; simp only at h ⊢; omega
+          · right; exact ⟨h1, h2', h⟩
+      · simp only [hm, if_false, hr']
+        refine ⟨_, rfl, fun x => ?_⟩
+        rw [cov_cons, hc' x]
+        constructor
+        · rintro ⟨h1, h2', h⟩; exact ⟨h1, h2', Or.inr h⟩
+        · rintro ⟨h1, h2', h | h⟩
+          · simp only at h; omega
+          · exact ⟨h1, h2', h⟩
+    · simp only [hc, if_false]
+      by_cases hbk : a2 < b1
+      · simp only [hbk, if_true]
+        refine ⟨[], rfl, fun x => ?_⟩
+        simp only [cov_nil, false_iff]
+        rintro ⟨h1, h2', h⟩
+        rw [cov_cons] at h
+        rcases h with h | ⟨q, hq, hq1, hq2⟩
+        · simp only at h; omega
+        · have := hs'.1 q hq; simp only at this; omega
+      · simp only [hbk, if_false, hr']
+        refine ⟨_, rfl, fun x => ?_⟩
+        rw [cov_cons, hc' x]
+        constructor
+        · rintro ⟨h1, h2', h⟩; exact ⟨h1, h2', Or.inr h⟩
+        · rintro ⟨h1, h2', h | h⟩
+          · simp only at h; omega
+          · exact ⟨h1, h2', h⟩
+
+/-- `coords_intersect` (hand model): for proper segments and a second list sorted by start, the call returns and the
+columns covered by the result are exactly the columns covered by both lists -/
+theorem coordsIntersect_model_spec (c1 c2 : List (Int × Int)) (h1 : ∀ p ∈ c1, p.1 < p.2) (h2 : ∀ p ∈ c2, p.1 < p.2)
+    (hs : c2.Pairwise (fun p q => p.1 ≤ q.1)) :
+    ∃ r, IndelMap.coordsIntersect c1 c2 = .ok r ∧ ∀ x, Cov r x ↔ (Cov c1 x ∧ Cov c2 x) := by
+  induction c1 with
+  | nil => exact ⟨[], rfl, fun x => by simp [cov_nil]⟩
+  | cons a rest ih =>
+    obtain ⟨a1, a2⟩ := a
+    obtain ⟨r1, hr1, hc1⟩ := intersectInner_spec a1 a2 (h1 (a1, a2) (by simp)) c2 h2 hs
+    obtain ⟨r2, hr2, hc2⟩ := ih (fun p hp => h1 p (by simp [hp]))
+    refine ⟨r1 ++ r2, by simp [IndelMap.coordsIntersect, hr1, hr2], fun x => ?_⟩
+    rw [cov_append, cov_cons, hc1 x, hc2 x]
+    constructor
+    · rintro (⟨h, h', h''⟩ | ⟨h, h'⟩)
+      · exact ⟨Or.inl ⟨h, h'⟩, h''⟩
+      · exact ⟨Or.inr h, h'⟩
+    · rintro ⟨⟨h, h'⟩ | h, h''⟩
+      · exact Or.inl ⟨h, h', h''⟩
+      · exact Or.inr ⟨h, h''⟩
+
+/-- the same for the code TRANSLATED from the python source: `coords_intersect` returns, and a column is covered by
+the result iff it is covered by both coordinate lists (set intersection) -/
+theorem coords_intersect_spec (c1 c2 : List (Int × Int)) (h1 : ∀ p ∈ c1, p.1 < p.2) (h2 : ∀ p ∈ c2, p.1 < p.2)
+    (hs : c2.Pairwise (fun p q => p.1 ≤ q.1)) :
+    ∃ r, C08Gen.coordsIntersect c1 c2 = .ok r ∧ ∀ x, Cov r x ↔ (Cov c1 x ∧ Cov c2 x) := by
+  obtain ⟨r, hr, hc⟩ := coordsIntersect_model_spec c1 c2 h1 h2 hs
+  exact ⟨r, by rw [gen_coordsIntersect, hr]; rfl, hc⟩
+
+example : C08Gen.coordsIntersect [(0, 3), (5, 9)] [(2, 6), (8, 12)] = .ok [(2, 3), (5, 6), (8, 9)] := by decide
+
+/-! ### closed form of `coords_minus_coords` (the core of `minus_gaps`), for the translated code -/
+
+/-- number of columns two half-open segments share -/
+def ovl (a1 a2 : Int) (q : Int × Int) : Int := max 0 (min a2 q.2 - max a1 q.1)
+
+/-- total overlap of `[a1, a2)` with the segments of a coordinate list -/
+def sumOvl (a1 a2 : Int) : List (Int × Int) → Int
+  | [] => 0
+  | q :: r => ovl a1 a2 q + sumOvl a1 a2 r
+
+/-- what `coords_minus_coords` computes, in closed form: every segment of the first list is shortened FROM ITS END by
+the number of columns it shares with the second list, and dropped when nothing is left -/
+def minusClosed (c1 c2 : List (Int × Int)) : List (Int × Int) :=
+  c1.filterMap fun a => if sumOvl a.1 a.2 c2 = a.2 - a.1 then none else some (a.1, a.2 - sumOvl a.1 a.2 c2)
+
+theorem sumOvl_zero_of_after (a1 a2 : Int) (l : List (Int × Int)) (h : ∀ q ∈ l, a2 ≤ q.1) : sumOvl a1 a2 l = 0 := by
+  induction l with
+  | nil => rfl
+  | cons q r ih =>
+    have := h q (by simp)
+    simp only [sumOvl, ovl, ih (fun q hq => h q (by simp [hq]))]
+    omega
+
+theorem minusInner_spec (a1 a2 : Int) (ha : a1 < a2) (c2 : List (Int × Int)) (h2 : ∀ p ∈ c2, p.1 < p.2)
+    (hs : c2.Pairwise (fun p q => p.1 ≤ q.1)) (tot : Option Int) :
+    ∃ t, IndelMap.minusInner a1 a2 tot c2 = .ok t ∧ t.getD 0 = tot.getD 0 + sumOvl a1 a2 c2 := by
+  induction c2 generalizing tot with
+  | nil => exact ⟨tot, rfl, by simp [sumOvl]⟩
+  | cons b rest ih =>
+    obtain ⟨b1, b2⟩ := b
+    have hb : b1 < b2 := h2 (b1, b2) (by simp)
+    have hs' := List.pairwise_cons.mp hs
+    have ih' := ih (fun p hp => h2 p (by simp [hp])) hs'.2
+    simp only [IndelMap.minusInner, spanAndSpan_spec a1 a2 b1 b2 ha hb, sumOvl, ovl]
+    by_cases c1 : b2 < a1
+    · simp only [c1, if_true]
+      obtain ⟨t, ht, hg⟩ := ih' tot
+      exact ⟨t, ht, by rw [hg]; omega⟩
+    · simp only [c1, if_false]
+      by_cases c2' : a2 ≤ b1
+      · simp only [c2', if_true]
+        refine ⟨tot, rfl, ?_⟩
+        have := sumOvl_zero_of_after a1 a2 rest (fun q hq => by have := hs'.1 q hq; simp only at this; omega)
+        rw [this]; omega
+      · simp only [c2', if_false]
+        by_cases hm : max a1 b1 < min a2 b2
+        · simp only [hm, if_true]
+          obtain ⟨t, ht, hg⟩ := ih' (some (min a2 b2 - max a1 b1 + tot.getD 0))
+          exact ⟨t, ht, by rw [hg]; simp only [Option.getD_some]; omega⟩
+        · simp only [hm, if_false]
+          obtain ⟨t, ht, hg⟩ := ih' tot
+          exact ⟨t, ht, by rw [hg]; omega⟩
+
+/-- `coords_minus_coords` (hand model) in closed form, for proper segments and a second list sorted by start -/
+theorem coordsMinusCoords_model_spec (c1 c2 r : List (Int × Int)) (h1 : ∀ p ∈ c1, p.1 < p.2) (h2 : ∀ p ∈ c2, p.1 < p.2)
+    (hs : c2.Pairwise (fun p q => p.1 ≤ q.1)) (h : IndelMap.coordsMinusCoords c1 c2 = .ok r) : r = minusClosed c1 c2 := by
+  induction c1 generalizing r with
+  | nil => simp only [IndelMap.coordsMinusCoords] at h; cases h; rfl
+  | cons a rest ih =>
+    obtain ⟨a1, a2⟩ := a
+    have ha : a1 < a2 := h1 (a1, a2) (by simp)
+    obtain ⟨t, ht, hg⟩ := minusInner_spec a1 a2 ha c2 h2 hs none
+    simp only [Option.getD_none, Int.zero_add] at hg
+    simp only [IndelMap.coordsMinusCoords, ht] at h
+    split at h
+    · cases h
+    · cases hr : IndelMap.coordsMinusCoords rest c2 with
+      | error e => simp [hr] at h
+      | ok rr =>
+        have := ih rr (fun p hp => h1 p (by simp [hp])) hr
+        simp only [hr] at h
+        have key : (some (a2 - a1) ≠ t) ↔ ¬ (sumOvl a1 a2 c2 = a2 - a1) := by
+          rw [← hg]; cases t with
+          | none => simp; omega
+          | some v => simp; omega
+        simp only [minusClosed, List.filterMap_cons]
+        by_cases hk : sumOvl a1 a2 c2 = a2 - a1
+        · have : ¬ (some (a2 - a1) ≠ t) := by rw [key]; simpa using hk
+          simp only [this, if_false] at h
+          rw [← Except.ok.inj h]
+          rw [if_pos (by simpa using hk)]
+          exact ih rr (fun p hp => h1 p (by simp [hp])) hr
+        · have h3 : some (a2 - a1) ≠ t := key.mpr hk
+          rw [if_pos h3] at h
+          rw [← Except.ok.inj h]
+          simp only [hk, if_false, hg]
+          rw [ih rr (fun p hp => h1 p (by simp [hp])) hr]; rfl
+
+/-- the same for the code TRANSLATED from the python source -/
+theorem coords_minus_coords_spec (c1 c2 r : List (Int × Int)) (h1 : ∀ p ∈ c1, p.1 < p.2) (h2 : ∀ p ∈ c2, p.1 < p.2)
+    (hs : c2.Pairwise (fun p q => p.1 ≤ q.1)) (h : C08Gen.coordsMinusCoords c1 c2 = .ok r) : r = minusClosed c1 c2 := by
+  rw [gen_coordsMinusCoords] at h
+  cases hm : IndelMap.coordsMinusCoords c1 c2 with
+  | error e => rw [hm] at h; cases h
+  | ok rr =>
+    rw [hm] at h
+    simp only [liftE] at h
+    rw [← Except.ok.inj h]
+    exact coordsMinusCoords_model_spec c1 c2 rr h1 h2 hs hm
+
+example : C08Gen.coordsMinusCoords [(0, 3), (5, 9), (10, 12)] [(2, 6), (10, 12)] = .ok (minusClosed [(0, 3), (5, 9), (10, 12)] [(2, 6), (10, 12)]) := by decide
 end CogentModel.C08
